@@ -144,8 +144,10 @@ def check(run):
         "inheritance, import errors, metadata type checks, the text of the disabled reason",
     ]
     run.assume += ["module file names and directory names are distinct within one directory (file system)",
-                   "C13_exact is stated on the tree as the loader sees it (directory listings sorted, ranks assigned by the import "
-                   "pass); the specification declared_dir does not look at ranks"]
+                   "C13_exact / C13_hidden_omitted are theorems about the loader WITH fixes/F16-*.patch (model variant fixed=true); "
+                   "for the loader before the fix C13_hidden_omitted_refuted is the witness, replayed on the real code on every run",
+                   "C13_order: declaration order is proved for tests and for suite classes without rank=; classes with rank= and "
+                   "module/directory suites are ordered by (rank, name) as written in the code"]
     run.prove(extra_targets=["theories/Base/Util.vo", "theories/Model/Loader.vo"])
 
     # ---- F16: observed on the implementation on every run; decides which variant of the model the code is compared with
